@@ -74,48 +74,6 @@ def parseVal (d : D) (w : String) : Option HVal :=
     | _ => none
   else none
 
-def defaultVal (u : Universe) : Nat → Nat → XV
- | 0, c => .struct c []
- | fuel + 1, c => .struct c ((clsOf u c).fields.map fun (f, k) =>
-    match k with
-    | .num => (f, .num 0)
-    | .nested c' => (f, defaultVal u fuel c')
-    | .ref c' => (f, .ref c' none))
-
-/-- `HybridClass.__init__` / `xoinitialize` with keyword arguments -/
-def hnew (u : Universe) (s : St) (cls buf : Nat) (kw : List (String × HVal)) : St × Except HErr Nat :=
-  let c := clsOf u cls
-  let kwxo := kw.map fun (py, v) => (xoName c py, v)
-  -- the xobject: Struct(**xo_kwargs) in the given buffer
-  let (fields, h1) := c.fields.foldl (fun (acc : List (String × XV) × Heap) (f, k) =>
-      match k, (kwxo.lookup f : Option HVal) with
-      | .num, some (HVal.num n) => (acc.1 ++ [(f, .num n)], acc.2)
-      | .num, _ => (acc.1 ++ [(f, .num 0)], acc.2)
-      | .nested c', some (HVal.dressed j) =>
-        (match xread acc.2 (s.inst j).loc with
-         | some v => let (v', h') := copyVal 64 acc.2 (s.inst j).loc.buf buf v; (acc.1 ++ [(f, v')], h')
-         | none => (acc.1 ++ [(f, defaultVal u 8 c')], acc.2))
-      | .nested c', _ => (acc.1 ++ [(f, defaultVal u 8 c')], acc.2)
-      | .ref c', some (HVal.dressed j) =>
-        let y := s.inst j
-        if y.loc.buf == buf then (acc.1 ++ [(f, .ref c' (some y.loc))], acc.2)
-        else
-          (match xcopy acc.2 y.loc buf with
-           | some (l, h') => (acc.1 ++ [(f, .ref c' (some l))], h')
-           | none => (acc.1 ++ [(f, .ref c' none)], acc.2))
-      | .ref c', _ => (acc.1 ++ [(f, .ref c' none)], acc.2)) ([], s.heap)
-  let (l, h2) := alloc h1 buf (.struct cls fields)
-  let (i, s1) := ({ s with heap := h2 } : St).addInst { cls, loc := l, dressed := [], movable := true, py := [] }
-  -- setattr(self, kk, vv) for the dressed inputs
-  let r := kw.foldl (fun (acc : St × Option HErr) (py, v) =>
-      match acc.2, v with
-      | some _, _ => acc
-      | none, .dressed _ => hset u acc.1 i py v
-      | none, _ => acc) (s1, none)
-  match r.2 with
-  | some e => (r.1, .error e)
-  | none => (reinit u 8 r.1 i, .ok i)
-
 def step (d : D) (line : String) : D × String :=
   match words line with
   | ["univ", spec] =>
